@@ -281,6 +281,50 @@ func genMainPart(r *rng, feats map[string]int, tier string) ([]byte, string) {
 			}
 		}
 	}
+	if r.chance(25) {
+		// structured document tags in shapes the schema allows and the library never writes: without content, with
+		// empty content, without properties, nested in the content of another one, around tables and runs
+		var sd func(depth int) string
+		sd = func(depth int) string {
+			var b strings.Builder
+			b.WriteString("<w:sdt>")
+			if r.chance(70) {
+				b.WriteString(`<w:sdtPr><w:id w:val="` + fmt.Sprint(r.intn(99)) + `"/>`)
+				if r.chance(40) {
+					b.WriteString(`<w:docPartObj><w:docPartGallery w:val="Table of Contents"/><w:docPartUnique/></w:docPartObj>`)
+				}
+				b.WriteString(`</w:sdtPr>`)
+			}
+			switch r.pick([]int{25, 15, 60}) {
+			case 0: // no content at all
+			case 1:
+				b.WriteString("<w:sdtContent/>")
+			default:
+				b.WriteString("<w:sdtContent>")
+				for i, n := 0, r.rangeI(1, 4); i < n; i++ {
+					switch k := r.intn(5); {
+					case k == 0 && depth < 4:
+						b.WriteString(sd(depth + 1))
+					case k == 1:
+						b.WriteString(`<w:tbl><w:tr><w:tc><w:p><w:pPr><w:pStyle w:val="TableText"/></w:pPr><w:r><w:t>t</w:t></w:r></w:p></w:tc></w:tr></w:tbl>`)
+					case k == 2:
+						b.WriteString(`<w:r><w:t>run in content</w:t></w:r>`)
+					default:
+						b.WriteString(`<w:p><w:pPr><w:pStyle w:val="TOC` + fmt.Sprint(1+r.intn(3)) + `"/></w:pPr><w:r><w:t>entry</w:t></w:r></w:p>`)
+					}
+				}
+				b.WriteString("</w:sdtContent>")
+			}
+			b.WriteString("</w:sdt>")
+			return b.String()
+		}
+		cur := g.b.String()
+		if k := strings.LastIndex(cur, "</w:body>"); k >= 0 {
+			g.b.Reset()
+			g.b.WriteString(cur[:k] + sd(0) + cur[k:])
+			feats["structured document tags in unusual shapes (no content, empty content, nested)"]++
+		}
+	}
 	g.b.WriteString("</" + rootOpen + ">")
 	if r.chance(10) {
 		g.b.WriteString("<!-- trailing --><trailing/>")
